@@ -139,6 +139,17 @@ pub fn run_c19(tier: &str, seed: u64, out: &mut dyn Write) {
         let quick = t0.elapsed().as_millis() < 300;
         writeln!(out, "transport\tchan-nonblocking-empty\t{}", match res { Some(true) if quick => "error-at-once".to_string(), Some(true) => "error-after-blocking".to_string(), Some(false) => "returned-data".to_string(), None => "PANIC".to_string() }).unwrap();
     }
+    // channel, polling: a backlog queued before the first receive comes out one datagram per call
+    {
+        let (to_ccp, from_dp) = crossbeam::channel::unbounded::<Vec<u8>>();
+        let (to_dp, _from_ccp) = crossbeam::channel::unbounded::<Vec<u8>>();
+        let sock = portus::ipc::chan::Socket::<Nonblocking>::new(to_dp, from_dp);
+        let per = burst / 10;
+        for q in 0..per { let len = if r.chance(1, 3) { r.range(13, 40) as usize } else { r.range(13, 1024) as usize }; to_ccp.send(payload(0, q as u32, len)).unwrap(); }
+        let mut got = vec![]; let mut bad = 0; let mut buf = [0u8; 1024];
+        let res = catch(|| { while let Ok((n, ())) = sock.recv(&mut buf) { match check_payload(&buf[..n]) { Some(x) => got.push(x), None => bad += 1 } } });
+        writeln!(out, "transport\tchan-polling-backlog per={}\t{}", per, if res.is_none() { "PANIC".to_string() } else { judge(&got, 1, per, bad) }).unwrap();
+    }
     for over in [1025usize, 2048, 70000] {
         let (to_ccp, from_dp) = crossbeam::channel::unbounded::<Vec<u8>>();
         let (to_dp, _from_ccp) = crossbeam::channel::unbounded::<Vec<u8>>();
